@@ -597,10 +597,6 @@ def fam_inject(rng, n, tag="inj"):
         def mk(dirty):
             s = Scen("%s_%d%s" % (tag, i, "d" if dirty else "c"), players=2, window=8, lat=10, seed=seed, inputrun=2, expect=["nodisconnect"])
             s.p2p(1, [0]); s.p2p(2, [1])
-            # the same losses in both runs: retransmissions have to work (they need what is still pending)
-            r1 = __import__("random").Random(seed ^ 0x5151)
-            if r1.random() < 0.6:
-                s.link(1, 2, outages=[(a, a + r1.choice([40, 80, 150])) for a in sorted(r1.sample(range(300, 3800, 50), r1.randrange(2, 8)))])
             for p, o in ((1, 0), (2, 5)):
                 s.ticks(p, o, 4000, 16)
             return s
@@ -612,6 +608,35 @@ def fam_inject(rng, n, tag="inj"):
             args = r2.choice(kinds)(r2)
             d.at(t, "inject", frm, 1, *args)
         out.append((c, d))
+    return out
+
+def fam_inject_loss(rng, n, tag="injl"):
+    """C08: malformed packets under the peer's own magic that carry an acknowledgement the peer never sent, into a
+    session whose genuine packets are being lost: a rejected packet must not act as an ack - what it would discard
+    from pending_output is needed for the retransmission.  (No clean/dirty pair here: extra traffic legitimately
+    shifts retransmission timing under loss; the oracle is that the session keeps advancing after the losses and
+    that the confirmed timelines stay true.)"""
+    out = []
+    for i in range(n):
+        s = Scen("%s_%d" % (tag, i), players=2, window=8, lat=10, seed=rng.randrange(1 << 30), inputrun=2, expect=["nodisconnect"])
+        s.p2p(1, [0]); s.p2p(2, [1])
+        starts = sorted(rng.sample(range(300, 3000, 50), rng.randrange(3, 9)))
+        outs = [(a, a + rng.choice([40, 80, 150])) for a in starts]
+        s.link(1, 2, outages=outs)
+        for p, o in ((1, 0), (2, 5)):
+            s.ticks(p, o, 5000, 16)
+        for (a, b) in outs:
+            # forged packets "from 2" arrive at 1 while 1's own packets are being lost
+            for t in range(a, b + 60, 20):
+                kind = rng.random()
+                if kind < 0.5:
+                    s.at(t, "inject", 2, 1, "input", 0, rng.choice([0, 1, 3, 7]), rng.randrange(0, 300), rng.choice([100000, rng.randrange(0, 400)]), "02040502030d")
+                else:
+                    s.at(t, "inject", 2, 1, "input", 0, 2, -rng.randrange(1, 1 << 30), rng.choice([100000, rng.randrange(0, 400)]), "02040502030d")
+        s.at(3300, "mark")
+        s.at(4990, "progress", 1, 60, "C08")
+        s.at(4990, "progress", 2, 60, "C08")
+        out.append(s)
     return out
 
 def fam_inject_silent(rng, n, tag="injs"):
